@@ -33,7 +33,7 @@ P = {
  "C06": dict(
   technique="exhaustive target sets (subsets <= 3 of an adversarial name pool) x probe elements x skip placements, random documents, and the CLI without target options; exact-membership oracle",
   text="Exploration with an exact set-membership oracle over near-miss names (prefix, superstring, case variants, option defaults) and all skip placements.",
-  note="Duplicate name attributes are never generated.",
+  note="Duplicate name attributes are never generated. The CLI part covers no target option, repeated flags, and target config files (LF / CRLF, with / without final line break, alone and together with a flag).",
   ref="6/C06"),
  "C07": dict(
   technique="bounded-exhaustive atom strings (24 delimiter pairs) + random long strings (proptest tapes, shrinking) against the partition/offset invariants",
@@ -48,10 +48,10 @@ P = {
  "C09": dict(
   technique="by-construction round-trip of grammar-generated tags (exhaustive <=2 attributes, random <=4) through tokenize+element_parser; metamorphic insertion of an opaque quoted attribute into documents",
   text="Exploration: tags are generated from the documented grammar with adversarial quoted values and separators; the parse must equal the generating AST; adding c=\"<adversarial>\" must not change any removal decision.",
-  note="Unquoted values, duplicate keys, bodies touching delimiters are never generated (unspecified).",
+  note="Unquoted values, duplicate keys, bodies touching delimiters, a line break between = and the quote are never generated (unspecified). The value pool includes values that end in backslashes.",
   ref="6/C09"),
  "C10": dict(
-  technique="differential against a stack model on every tag sequence up to length 7/8 over {open a, open b, close a, close b, close z, text, open a with attribute}, plus random long sequences",
+  technique="differential against a stack model on every tag sequence up to length 8/9 over {open a, open b, close a, close b, close z, text, open a with attribute}, a second enumeration (length 7/8) in which closing tags carry attribute-like content, plus random long sequences",
   text="Exploration: complete enumeration of interleavings up to a bound; pairs, depths and document order compared with a reference stack machine.",
   note="Tokenization is trusted here (C07/C08 cover it).",
   ref="6/C10"),
@@ -91,9 +91,9 @@ P = {
   note="Domain of C15.",
   ref="6/C17"),
  "C18": dict(
-  technique="metamorphic: the same abstract document rendered under two spellings (all 210 ordered pairs of 15 delimiter spellings; tag-name pool); outputs must be re-spellings of each other",
+  technique="metamorphic: the same abstract document rendered under two spellings (all 306 ordered pairs of 18 delimiter spellings; 5 tag-name sets); outputs must be re-spellings of each other; documents include multi-line tags, tags sharing lines (also with unwrap-block tags) and a planted layout whose dedent column depends on a neighbouring tag's width",
   text="Exploration of a metamorphic relation over all ordered pairs of spellings x random documents.",
-  note="Non-blank delimiter characters do not occur in the text; documents that do not reference-tokenize into the intended tags are discarded and counted.",
+  note="Non-blank delimiter characters do not occur in the text; documents that do not reference-tokenize into the intended tags, or in which an unwrap-block part would cut a multi-line tag in two (half a tag cannot be re-spelled), are discarded and counted.",
   ref="6/C18"),
  "C19": dict(
   technique="stateful: histories of 1..4 cleaning steps (non-decreasing times / growing target sets) interpreted step by step with invariants after every step (idempotence, composition up to whitespace, nothing stranded)",
@@ -103,7 +103,7 @@ P = {
  "C20": dict(
   technique="differential: the chiritori binary (rebuilt from /repo) under generated option combinations, 10-11 runs per case over I/O paths (file/stdin x stdout/--output/in-place), long and short options, config file vs flags, explicit vs omitted defaults and 5 TZ/locale environments, compared byte for byte with the library result",
   text="Exploration: process-level differential testing across I/O variants, config-file vs flags, defaults and environment.",
-  note="Arguments in --opt=value form; current time always given as RFC 3339 with offset.",
+  note="Arguments in --opt=value form; current time always given as RFC 3339 with offset. A separate sub-check runs all 105 quarter-hour offsets in both spellings at the expiry boundary (binary vs library).",
   ref="6/C20"),
 }
 
